@@ -42,7 +42,7 @@ def bound_names(body):
 module_names = {mod.path: bound_names(mod.tree.body) for mod in m.modules.values()}
 class_names = {c.qualname: bound_names(c.node.body) for c in m.classes.values()}
 json.dump({'commit': commit, 'functions': {k: sorted(set(v)) for k, v in sorted(out.items())}, 'attrs': attrs,
-           'module_names': module_names, 'class_names': class_names,
+           'module_names': module_names, 'class_names': class_names, 'tree_digest': ov.digest(),
            'local_shapes': {'%s::%s' % (f.path, f.qualname): list(__import__('sa.inline', fromlist=['local_shape']).local_shape(f.node))
                             for f in m.all_functions() if f.kind != 'nested'}},
           open(os.path.join(VERIF, 'reference_api.json'), 'w'), indent=0)
